@@ -13,7 +13,7 @@ import (
 func goValJ(v any) J {
 	switch x := v.(type) {
 	case float64:
-		return J{"k": "f64", "canon": ld.GetCanonicalDouble(x)}
+		return f64J(x)
 	case string:
 		return J{"k": "str", "v": x}
 	case bool:
@@ -38,6 +38,15 @@ func kindOfDatatype(dt string) string {
 	return "str"
 }
 
+// a float64 as the model sees it: the canonical double spelling, and int64(x) when x == float64(int64(x))
+func f64J(x float64) J {
+	j := J{"k": "f64", "canon": ld.GetCanonicalDouble(x)}
+	if x == float64(int64(x)) {
+		j["whole"] = fmt.Sprint(int64(x))
+	}
+	return j
+}
+
 // C10: for every literal of a merklized document, HashValue(JSONLDType(path), RawValue(path)) == stored leaf value
 func genC10(out *Out, r *Rng, tier string, n int, shard int) {
 	for i := 0; i < n; i++ {
@@ -46,6 +55,7 @@ func genC10(out *Out, r *Rng, tier string, n int, shard int) {
 		g.prime = hs.Prime
 		g.noGraph = r.Chance(70)
 		g.multiPct = 12
+		g.nativeInStr = true
 		root := g.node(g.sch.Root, 0, r.Bool())
 		p := randomPresentation(r)
 		p.lexAlt = 0
